@@ -75,7 +75,7 @@ def block_menu(targets, rich):
             m += [('L', t), ('Q', t), ('E', t)]
     return m
 
-def gen_doc_spec(ctx, targets, max_blocks, rich, heading_links=False):
+def gen_doc_spec(ctx, targets, max_blocks, rich, heading_links=False, small_tail=False):
     spec = []
     hd = ctx.choose(3 if heading_links else 2)
     if hd == 1:
@@ -84,6 +84,8 @@ def gen_doc_spec(ctx, targets, max_blocks, rich, heading_links=False):
         spec.append(('HL', targets[0]))
     menu = block_menu(targets, rich)
     for i in range(max_blocks):
+        if i > 0 and small_tail:
+            menu = [('P',), ('R', targets[0]), ('I', targets[1])]
         c = ctx.choose(len(menu) + 1)
         if c == len(menu):
             break
@@ -254,10 +256,11 @@ class LibHarness(Harness):
         upd = self.keys[ctx.choose(2)]
         oth = [k for k in self.keys if k != upd][0]
         targets = [oth, 'zz', upd]
-        other_menu = [[('P',)], [('H',), ('R', upd)], [('I', upd)]] + ([] if quick else [[('R', 'zz')], [('H',), ('P',)]])
+        other_menu = [[('P',)], [('H',), ('R', upd)], [('I', upd)], [('R', 'zz')]] + ([] if quick else [[('H',), ('P',)], [('I', 'zz')]])
         other_spec = other_menu[ctx.choose(len(other_menu))]
         if quick:
-            old_menu = [[], [('P',)], [('R', oth)], [('I', oth)], [('R', 'zz')], [('I', 'zz')]]
+            old_menu = [[], [('P',)], [('R', oth)], [('I', oth)], [('R', 'zz')], [('I', 'zz')],
+                        [('T',), ('P',)], [('T',), ('R', oth)], [('C',), ('I', oth)], [('U',), ('P',)]]
             old_spec = ([('H',)] if ctx.choose(2) else []) + old_menu[ctx.choose(len(old_menu))]
         else:
             old_spec = gen_doc_spec(ctx, targets[:2], 1, False)
@@ -272,7 +275,7 @@ class LibHarness(Harness):
         for step in range(steps):
             if step == 0:
                 key = upd
-                spec = gen_doc_spec(ctx, targets[:2] if quick else targets, 2, not quick)
+                spec = gen_doc_spec(ctx, targets[:2] if quick else targets, 2, not quick, small_tail=quick)
             else:
                 kind = ctx.choose(3)            # edit the same note again, edit the other, insert a new note
                 key = [upd, oth, 'c'][kind]
